@@ -19,14 +19,14 @@ MCOut == <<"A","out">>
 D7 == DirNode(755, 1)
 
 MCNameOrder == <<"", ".", "..", "..n", ".git", ".terraform", ".terraformignore", "A", "a", "ab", "b", "cw", "e", "ef", "ext", "ext2",
-                 "f", "fifo", "g", "k", "l", "la", "lb", "m", "modules", "out", "p", "q", "ra", "rl", "rl2", "s", "src", "srcx", "t", "x", "y", "z">>
+                 "f", "fifo", "g", "k", "l", "la", "lb", "m", "modules", "out", "p", "q", "ra", "rl", "rl2", "s", "s.n", "src", "srcx", "t", "x", "y", "z">>
 MCNameChars == [n \in { MCNameOrder[i] : i \in DOMAIN MCNameOrder } |->
    CASE n = ".git" -> DotGit [] n = ".terraform" -> DotTerraform [] n = "modules" -> Modules
      [] n = ".terraformignore" -> <<".","t","e","r","r","a","f","o","r","m","i","g","n","o","r","e">>
      [] n = "ab" -> <<"a","b">> [] n = "ef" -> <<"e","f">> [] n = "ext" -> <<"e","x","t">> [] n = "ext2" -> <<"e","x","t","2">>
      [] n = "fifo" -> <<"f","i","f","o">> [] n = "la" -> <<"l","a">> [] n = "lb" -> <<"l","b">> [] n = "out" -> <<"o","u","t">>
      [] n = "src" -> <<"s","r","c">> [] n = "srcx" -> <<"s","r","c","x">> [] n = "cw" -> <<"c","w">> [] n = "rl" -> <<"r","l">>
-     [] n = "..n" -> <<".",".","n">> [] n = "rl2" -> <<"r","l","2">> [] n = "ra" -> <<"r","a">> [] n = ".." -> <<".",".">>
+     [] n = "..n" -> <<".",".","n">> [] n = "s.n" -> <<"s",".","n">> [] n = "rl2" -> <<"r","l","2">> [] n = "ra" -> <<"r","a">> [] n = ".." -> <<".",".">>
      [] OTHER -> <<n>>]
 
 ArenaBase ==
@@ -45,12 +45,12 @@ Opt(x) == IF x = <<>> THEN <<>> ELSE x
 LinkSlot(p, tg) == IF tg = <<"-">> THEN <<>> ELSE (p :> LinkNode(tg))
 
 \* ---- safety universe: link shapes x special files x odd modes ----
-TL == { <<"..">>, <<"..","ext">>, <<"..","ext","s">>, <<"..","ext","x">>, <<"..","srcx">>, <<"..","srcx","f">>, <<"s">>, <<"f">>, <<"nowhere">>,
+TL == { <<"..">>, <<"..","cw","ext","zz">>, <<"..","ext">>, <<"..","ext","s">>, <<"..","ext","x">>, <<"..","srcx">>, <<"..","srcx","f">>, <<"s">>, <<"f">>, <<"nowhere">>,
         <<"..","fifo">>, <<"..","la">>, <<"","A","src","f">>, <<"","A","ef">>, <<"..","..","A","ext">>, <<"s","..","..","ef">>, <<"..","ef">> }
 TK == { <<"..","ext2">>, <<".">>, <<"..","src","f">>, <<"x">>, <<"..","ef">> }
 TK2 == { <<"..","..","src","f">>, <<"y">> }      \* a link at ext/s/k: one level deeper than where it lands in the archive
 TM == { <<"..","f">>, <<"..","..">>, <<"..","..","src","f">>, <<"..","..","ext">>, <<"..","..","srcx","f">>, <<"..">>, <<"g">> }
-TLq == { <<"..">>, <<"..","ext">>, <<"..","ext","s">>, <<"..","ext","x">>, <<"..","srcx","f">>, <<"s">>, <<"nowhere">>, <<"..","fifo">>, <<"..","la">>, <<"","A","src","f">>, <<"","A","ef">> }
+TLq == { <<"..">>, <<"..","cw","ext","zz">>, <<"..","ext">>, <<"..","ext","s">>, <<"..","ext","x">>, <<"..","srcx","f">>, <<"s">>, <<"nowhere">>, <<"..","fifo">>, <<"..","la">>, <<"","A","src","f">>, <<"","A","ef">> }
 TKq == { <<"..","ext2">>, <<".">>, <<"x">> }
 TMq == { <<"..","f">>, <<"..","..">>, <<"..","..","src","f">>, <<"..","..","ext">>, <<"..">> }
 
@@ -58,6 +58,7 @@ TreeCore(tf, md, zm) ==
   (<<"A","src","f">> :> FileNode(644, tf, 1)) @@ (<<"A","src","s">> :> DirNode(md, 3))
   @@ (<<"A","src","s","g">> :> FileNode(600, 2, 2)) @@ (<<"A","src","e">> :> DirNode(md, 4))
   @@ (<<"A","src","z">> :> FileNode(zm, 2, 0)) @@ (<<"A","src","p">> :> FifoNode(644, 2))
+  @@ (<<"A","src","s.n">> :> FileNode(644, 2, 4))
 
 SafetyTrees(tl, tk, tm) ==
   { LinkSlot(<<"A","src","l">>, <<"..","ext","s">>) @@ LinkSlot(<<"A","ext","s","k">>, k2) @@ TreeCore(2, 755, 644) @@ ArenaBase : k2 \in TK2 }
@@ -84,6 +85,7 @@ Sat == [ p \in ( { <<d>> : d \in ID } \cup { <<d1, d2>> : d1 \in ID, d2 \in ID }
        @@ (<<".terraform">> :> D7) @@ (<<".terraform","b">> :> FileNode(644, 2, 1))
        @@ (<<".terraform","modules">> :> D7) @@ (<<".terraform","modules","b">> :> FileNode(644, 2, 1))
        @@ (<<"a",".git">> :> D7) @@ (<<"a",".git","b">> :> FileNode(644, 2, 1))
+       @@ (<<".terraform","modules",".git">> :> D7) @@ (<<".terraform","modules",".git","b">> :> FileNode(644, 2, 1))
        @@ (<<"l">> :> LinkNode(<<"..","ext">>))          \* dereferenced external directory: ext/x, ext/s/y
 IgnoreTree == [ p \in { Src \o r : r \in DOMAIN Sat } |-> Sat[SubSeq(p, 3, Len(p))] ]
               @@ (Src \o <<".terraformignore">> :> FileNode(644, 2, RuleFileC)) @@ ArenaBase
@@ -145,6 +147,7 @@ Trees == CASE Universe = "spell" -> { SpellTree } [] Universe = "safety" -> Safe
 
 OptSets == CASE Universe \in {"safety", "safetyq", "rt"} ->
                   { [ign |-> i, deref |-> d, allow |-> al, allowrel |-> {}] : i \in BOOLEAN, d \in BOOLEAN, al \in { {}, {<<"A","ext">>} } }
+                  \cup { [ign |-> FALSE, deref |-> d, allow |-> {}, allowrel |-> { <<"..","ext">> }] : d \in BOOLEAN }
              [] OTHER -> { [ign |-> i, deref |-> d, allow |-> {}, allowrel |-> {}] : i \in BOOLEAN, d \in BOOLEAN }
 
 Init == /\ pfs \in Trees
@@ -187,8 +190,11 @@ KF19Class(f, opts, d19) ==
            r.st = "loop" \/ (r.st = "ok" /\ f[r.p].k = "d" /\ Under(p, r.p))
   THEN "KF-C19-dereference-cycle" ELSE ""
 
-Verdict(f, opts, rl, st, out, meta, rt, l1) ==
-  LET logical == Logical(f, opts, rl, Src, <<>>, 2)
+\* the allow-list in effect for a call on Src: relative entries are joined to the root of that call
+EffOpts(o) == [o EXCEPT !.allow = o.allow \cup { JoinClean(Src, r) : r \in o.allowrel }]
+Verdict(f, opts0, rl, st, out, meta, rt, l1) ==
+  LET opts == EffOpts(opts0)
+      logical == Logical(f, opts, rl, Src, <<>>, 2)
       wantFiles == { x.ap : x \in { y \in logical : y.k \in {"f", "l"} /\ ~ExclL0(opts, rl, y.ap, FALSE) } }
       haveFiles == { out[i].name : i \in { j \in DOMAIN out : out[j].k \in {"f", "l"} } }
       bad == { x \in logical : x.k = "bad" /\ ~ExclL0(opts, rl, x.ap, FALSE) }
